@@ -44,8 +44,8 @@ ASSUMPTIONS = [
 COMPONENTS = {"real": ["atomica Model / Population / Project.run_sim / Result / Scenario / Project.save/load", "pickle, copy.deepcopy, sciris dcp/saveobj/loadobj"], "stub": ["scheduler only: real threads parked/released one at a time (atomsim.baton)"]}
 
 VARIANTS = ["plain", "progs", "budget", "coverage", "yfactors_dt", "parscen"]
-PROJECTS = ["udt", "usdt", "tb_simple", "udt_dyn", "hiv", "hypertension", "dt", "service", "timed_test", "uncertainty", "tb_simple_dyn", "hiv_dyn", "hypertension_dyn", "diabetes", "cervicalcancer", "timed_transfer", "timed_transfer_2", "timed_eligibility", "timed_indirect", "timed_indirect2", "derivative", "par_min_max", "no_compartment", "tb", "timed_tb"]
-HEAVY = {"tb", "timed_tb"}
+PROJECTS = ["udt", "usdt", "tb_simple", "udt_dyn", "hiv", "hypertension", "dt", "service", "timed_test", "uncertainty", "tb_simple_dyn", "hiv_dyn", "hypertension_dyn", "diabetes", "cervicalcancer", "timed_transfer", "timed_transfer_2", "timed_eligibility", "timed_indirect", "timed_indirect2", "derivative", "par_min_max", "no_compartment", "tb", "timed_tb", "legacy_scen", "legacy_nores"]
+HEAVY = {"tb", "timed_tb", "legacy_scen", "legacy_nores"}
 TEMPLATES = [
     ["run_sim", "run_sim"],
     ["build", "process_orig"],
